@@ -253,47 +253,70 @@ Record rstate := mkR {
   r_queue : list status;     (* broadcast messages this receiver has not read, oldest first *)
   r_closed : bool;
   r_joined : bool;
+  r_first : option status;   (* Shutdown.first: OnceLock set by the first request, before its send (shutdown.rs:32,39) *)
   r_done : bool
 }.
 
-Definition rinit : rstate := mkR [] false false false.
+Definition rinit : rstate := mkR [] false false None false.
 
-(* broadcast::channel(16) (shutdown.rs:17): a receiver more than 16 behind gets Lagged and then the oldest
-   RETAINED message; get_status loops on Lagged (internet.rs:96-100).  Closed only once the queue is empty. *)
+(* broadcast::channel(16) (shutdown.rs:22): a receiver more than 16 behind gets Lagged.  get_status
+   (internet.rs:106-124) then returns the remembered FIRST request; Closed only once the queue is empty.
+   Every send is preceded by `first.set`, so `first` is Some whenever the receiver lags; the `None => continue`
+   arm (oldest retained message) is kept as written. *)
 Definition capacity : nat := 16.
-Definition recv (q : list status) (closed : bool) : option status :=
+Definition recv (q : list status) (closed : bool) (first : option status) : option status :=
+  match q with
+  | [] => if closed then Some Exited else None
+  | h :: _ =>
+      if Nat.leb (length q) capacity then Some h
+      else match first with
+           | Some f => Some f
+           | None => nth_error q (length q - capacity)
+           end
+  end.
+
+(* the code before commit 0cf74903: on Lagged, get_status continued with the oldest RETAINED message *)
+Definition recv_orig (q : list status) (closed : bool) (first : option status) : option status :=
   match q with
   | [] => if closed then Some Exited else None
   | _ => nth_error q (length q - capacity)
   end.
 
 (* select!{ joined => get_status().await, status = get_status() => status }: both arms end in get_status *)
-Definition rstep (s : rstate) (e : rin) : rstate * option status :=
+Definition rstep_gen (rcv : list status -> bool -> option status -> option status)
+                     (s : rstate) (e : rin) : rstate * option status :=
   if r_done s then (s, None) else
   match e with
-  | RReq st => (mkR (r_queue s ++ [st]) (r_closed s) (r_joined s) false, None)
-  | RJoined => (mkR (r_queue s) (r_closed s) true false, None)
-  | RClosed => (mkR (r_queue s) true (r_joined s) false, None)
+  | RReq st =>
+      (mkR (r_queue s ++ [st]) (r_closed s) (r_joined s)
+           (match r_first s with Some f => Some f | None => Some st end) false, None)
+  | RJoined => (mkR (r_queue s) (r_closed s) true (r_first s) false, None)
+  | RClosed => (mkR (r_queue s) true (r_joined s) (r_first s) false, None)
   | RPoll =>
-      match recv (r_queue s) (r_closed s) with
-      | Some st => (mkR (r_queue s) (r_closed s) (r_joined s) true, Some st)
+      match rcv (r_queue s) (r_closed s) (r_first s) with
+      | Some st => (mkR (r_queue s) (r_closed s) (r_joined s) (r_first s) true, Some st)
       | None => (s, None)
       end
   | RDeadline =>
-      match recv (r_queue s) (r_closed s) with
-      | Some st => (mkR (r_queue s) (r_closed s) (r_joined s) true, Some st)
-      | None => (mkR (r_queue s) (r_closed s) (r_joined s) true, Some TimedOut)
+      match rcv (r_queue s) (r_closed s) (r_first s) with
+      | Some st => (mkR (r_queue s) (r_closed s) (r_joined s) (r_first s) true, Some st)
+      | None => (mkR (r_queue s) (r_closed s) (r_joined s) (r_first s) true, Some TimedOut)
       end
   end.
 
 (* the returns of the run, with the time of the poll that produced them *)
-Fixpoint rrun (s : rstate) (evs : list (N * rin)) : list (N * status) :=
+Fixpoint rrun_gen (rcv : list status -> bool -> option status -> option status)
+                  (s : rstate) (evs : list (N * rin)) : list (N * status) :=
   match evs with
   | [] => []
   | (t, e) :: r =>
-      let '(s', o) := rstep s e in
-      match o with Some st => (t, st) :: rrun s' r | None => rrun s' r end
+      let '(s', o) := rstep_gen rcv s e in
+      match o with Some st => (t, st) :: rrun_gen rcv s' r | None => rrun_gen rcv s' r end
   end.
+
+Definition rstep := rstep_gen recv.
+Definition rrun := rrun_gen recv.
+Definition rrun_orig := rrun_gen recv_orig.
 
 Definition second_ns : N := 1000000000.
 
@@ -376,18 +399,6 @@ Fixpoint first_req (tr : list obs) : option (status * N) :=
   | _ :: r => first_req r
   end.
 
-Fixpoint req_statuses (tr : list obs) : list status :=
-  match tr with
-  | [] => []
-  | OReq st _ :: r => st :: req_statuses r
-  | _ :: r => req_statuses r
-  end.
-
-(* the status a receiver more than `capacity` behind gets, if that many requests were queued *)
-Definition lag_pick (tr : list obs) : option status :=
-  let q := req_statuses tr in
-  if Nat.ltb capacity (length q) then nth_error q (length q - capacity) else None.
-
 Definition opt_is (o : option status) (st : status) : bool :=
   match o with Some x => status_eqb x st | None => false end.
 
@@ -395,10 +406,10 @@ Definition opt_is (o : option status) (st : status) : bool :=
 Definition check_paused (d : option N) (tr : list obs) (st : status) (t : N) : bool :=
   match first_req tr, d with
   | Some (s, t0), Some dd =>
-      if N.ltb t0 dd then (status_eqb st s || opt_is (lag_pick tr) st) && N.eqb t t0
-      else if N.eqb t0 dd then (status_eqb st s || status_eqb st TimedOut || opt_is (lag_pick tr) st) && N.eqb t dd
+      if N.ltb t0 dd then status_eqb st s && N.eqb t t0
+      else if N.eqb t0 dd then (status_eqb st s || status_eqb st TimedOut) && N.eqb t dd
       else status_eqb st TimedOut && N.eqb t dd
-  | Some (s, t0), None => (status_eqb st s || opt_is (lag_pick tr) st) && N.eqb t t0
+  | Some (s, t0), None => status_eqb st s && N.eqb t t0
   | None, Some dd => status_eqb st TimedOut && N.eqb t dd
   | None, None => status_eqb st Exited
   end.
@@ -418,8 +429,7 @@ Fixpoint acceptable (completed : bool) (tr : list obs) : list status :=
 
 Definition check_multi (d : option N) (slack : N) (tr : list obs) (late_seen : option status) (st : status) (t : N) : bool :=
   let acc := acceptable false tr in
-  let lagged := Nat.ltb capacity (length (req_statuses tr)) && existsb (status_eqb st) (req_statuses tr) in
-  let st_ok := existsb (status_eqb st) acc || opt_is late_seen st || lagged in
+  let st_ok := existsb (status_eqb st) acc || opt_is late_seen st in
   match d with
   | Some dd => (st_ok || status_eqb st TimedOut) && N.leb t (dd + second_ns + slack)
   | None => st_ok || (match acc with [] => status_eqb st Exited | _ => false end)
@@ -430,6 +440,7 @@ Record vcfg := mkV {
   v_machines : list machine_cfg;
   v_timeout : option N;
   v_paused : bool;
+  v_slack : N;                   (* real-time runs: 250 ms + twice the scheduling stall the child measured; 0 when paused *)
   v_builtin_sts : list status;   (* statuses the built-in applications of the case may request (not logged) *)
   v_late_seen : option status    (* first status the independent subscriber logged, maybe after the return *)
 }.
@@ -441,7 +452,7 @@ Definition deadline_ok (d : option N) (slack : N) (t : N) : bool :=
 
 (* a returned run *)
 Definition validate (c : vcfg) (tr : list obs) (st : status) (t : N) : verdict :=
-  let slack := if v_paused c then 0%N else 250000000%N in
+  let slack := v_slack c in
   if negb (check_barrier (v_napps c) (early_ok (v_machines c)) [] false tr) then Reject 1
   else if negb (deadline_ok (v_timeout c) slack t) then Reject 2
   else if Nat.eqb (v_napps c) 0 && existsb (status_eqb st) (v_builtin_sts c) then Accept
